@@ -78,7 +78,7 @@ func (v *Val) Key() string {
 		if v.C == nil && v.Type != nil {
 			b.WriteString("<" + typeStr(v.Type) + ">")
 		}
-	case "param", "alloc", "wire", "short", "makeslice", "buflen", "bufbytes", "calc", "unknown", "collect", "loopvar", "dyncall":
+	case "param", "alloc", "wire", "short", "makeslice", "buflen", "bufbytes", "calc", "unknown", "collect", "loopvar", "dyncall", "crc32hash":
 		fmt.Fprintf(&b, "#%d", v.ID)
 		if v.Name != "" {
 			b.WriteString(":" + v.Name)
